@@ -226,6 +226,15 @@ def handleVTT (op : String) (args impl : List String) : Verdict :=
   | "vtt.write", toks =>
     match decSubs toks with
     | some (s, []) =>
+      -- not modelled: negative instants (`formatDuration` prints signs inside the fields) and a tag whose class
+      -- list holds an empty name (what the reader returns for `<c.>`: the writer's common-prefix test compares
+      -- the dot-joined class names, the model compares the lists)
+      let negTs := match SRT.kvGet s.metadata "WebVTTTimestampMap" with
+        | some v => v.head? = some '-'
+        | none => false
+      if negTs || (s.items.any fun it => it.startAt < 0 || it.endAt < 0 ||
+          it.lines.any fun l => l.items.any fun li => li.startAt < 0 ||
+            (VTT.tagsOfAttrs li.attrs).any fun t => t.classes.any (·.isEmpty)) then .unmodelled else
       let m : Option String :=
         match VTT.write s with
         | none => some "err"
